@@ -57,13 +57,17 @@ def materialize(case, rng=None):
     return specs, xs
 
 
-def to_tensors(ns, specs, xs, dtype, req):
+def to_tensors(ns, specs, xs, dtype, req, storage="plain"):
     ts = []
-    for sp, x, r in zip(specs, xs, req):
+    pool = {}
+    for i, (sp, x, r) in enumerate(zip(specs, xs, req)):
         if sp["int"]:
             ts.append(ns.Tensor(np.asarray(x, dtype=np.int64)))
         else:
-            ts.append(ns.Tensor(np.array(x, dtype=dtype, copy=True), requires_grad=bool(r)))
+            arr = np.array(x, dtype=dtype, copy=True)
+            if storage != "plain":
+                arr = gen.as_storage(arr, storage, None, pool)       # same values, stored as a non-contiguous / shared-base view
+            ts.append(ns.Tensor(arr, requires_grad=bool(r)))
     return ts
 
 
@@ -72,7 +76,7 @@ def forward(ns, case, xs, dtype=np.float64, req=None):
     specs = operands_of(case)
     if req is None:
         req = [False] * len(xs)
-    ts = to_tensors(ns, specs, xs, dtype, req)
+    ts = to_tensors(ns, specs, xs, dtype, req, case.get("storage", "plain"))
     a = copy.deepcopy(case["a"])
     out = op.forms[case["form"]](ns, ts, a)
     return ts, out
